@@ -2,6 +2,7 @@ import QV.Shared.SchedFrames
 import QV.C24.Props
 import QV.C25.Spec
 import QV.C25.Lemmas
+import QV.Shared.HandlerLemmas
 /-
 C25 — Computed schedules are as-soon-as-possible and frame-exclusive.  Property theorems only.
 Times are `Int` (exact units); nothing here is about floating point.
@@ -426,6 +427,67 @@ theorem C25_frame_exclusive (b : Block) (es : List Edge) (hb : buildBlock b = .o
   simp only [Nat.zero_add] at hreach
   exact C25_path_exclusive b.instrs.length es dur items D hs hf hd hreach x hx y hy rfl rfl
     (by intro h; injection h with h; omega)
+
+open QV.HandlerFromAst in
+private theorem expandedBlock_shape (p : AProgram) (flat : List Ast.Instruction) (term : Option Ast.Instruction) :
+    ∃ rid, expandedBlock p flat term = ⟨flat.map (answersWith rid p), term.map (answersWith rid p)⟩ :=
+  ⟨_, rfl⟩
+
+open QV.HandlerFromAst in
+private theorem expanded_hyp (p : AProgram) (flat : List Ast.Instruction) (term : Option Ast.Instruction)
+    (hterm : ∀ t, term = some t → HandlerFromAst.role t = .controlFlow) : C24.Hyp (expandedBlock p flat term) := by
+  obtain ⟨rid, hshape⟩ := expandedBlock_shape p flat term
+  rw [hshape]
+  constructor
+  · intro q hq
+    unfold Block.items at hq
+    simp only at hq
+    rcases List.mem_append.1 hq with hq | hq
+    · obtain ⟨i, _, _, _, hget⟩ := mem_enumFrom _ _ q hq
+      obtain ⟨a, _, ha⟩ := List.mem_map.1 (List.mem_of_getElem? hget)
+      rw [← ha]
+      exact answersWith_framesNodup _ p a
+    · cases ht : term with
+      | none => simp [ht] at hq
+      | some t =>
+        simp only [ht, Option.map_some, List.mem_singleton] at hq
+        subst hq
+        exact answersWith_framesNodup _ p t
+  · intro t ht
+    simp only [Option.map_eq_some_iff] at ht
+    obtain ⟨t0, ht0, rfl⟩ := ht
+    simp only [answersWith]
+    exact hterm t0 ht0
+
+open QV.HandlerFromAst in
+/-- **C25 ∘ C26 (frame exclusivity from the AST).** Let `p` be any AST program, `flat` the calibration-expanded
+instructions of one of its blocks and `term` its control-flow terminator; the handler's answers are computed from
+the AST (`HandlerFromAst`). For the graph `build` produces and any schedule satisfying the ASAP specification with
+non-negative durations: two timed instructions of which — by C26's SPECIFICATION (`UsedBy` / `BlockedBy` on
+defined frames) — one uses a frame that the other uses or blocks do not overlap in time. No hypothesis about the
+handler remains. -/
+theorem C25_ast_frame_exclusive (p : AProgram) (flat : List Ast.Instruction) (term : Option Ast.Instruction)
+    (hterm : ∀ t, term = some t → HandlerFromAst.role t = .controlFlow) (es : List Edge)
+    (hb : buildBlock (expandedBlock p flat term) = .ok es)
+    (dur : Nat → Option Int) (items : List SItem) (D : Int) (hs : AsapSpec flat.length es dur items D)
+    (hd : ∀ x ∈ items, 0 ≤ x.dur) :
+    ∀ x ∈ items, ∀ y ∈ items, x.index < y.index → ∀ i j, flat[x.index]? = some i → flat[y.index]? = some j →
+      HandlerFromAst.isScheduled i = true → HandlerFromAst.isScheduled j = true →
+      (∃ f k1 k2, FrameAccessA p i f k1 ∧ FrameAccessA p j f k2 ∧ Conflict k1 k2) → x.stop ≤ y.start := by
+  intro x hx y hy hlt i j hi hj hsi hsj ⟨f, k1, k2, h1, h2, hc⟩
+  have hyp := expanded_hyp p flat term hterm
+  obtain ⟨rid, hshape⟩ := expandedBlock_shape p flat term
+  rw [hshape] at hb hyp
+  have hs' : AsapSpec (Block.mk (flat.map (answersWith rid p)) (term.map (answersWith rid p))).instrs.length
+      es dur items D := by simpa using hs
+  have gi : (Block.mk (flat.map (answersWith rid p)) (term.map (answersWith rid p))).instrs[x.index]? =
+      some (answersWith rid p i) := by simp [hi]
+  have gj : (Block.mk (flat.map (answersWith rid p)) (term.map (answersWith rid p))).instrs[y.index]? =
+      some (answersWith rid p j) := by simp [hj]
+  exact C25_frame_exclusive _ es hb hyp dur items D hs' hd x hx y hy hlt _ _ gi gj
+    (by simpa [answersWith] using hsi) (by simpa [answersWith] using hsj)
+    ⟨frameId p f, k1, k2, (mem_frameAccesses_answersWith rid p i (frameId p f, k1)).2 ⟨f, rfl, h1⟩,
+      (mem_frameAccesses_answersWith rid p j (frameId p f, k2)).2 ⟨f, rfl, h2⟩, hc⟩
 
 /-- `TimeSpan::union` is the hull of the two spans (for non-negative durations the result's duration is
 non-negative too). -/
